@@ -106,6 +106,19 @@ var extraSpecs = []graphSpec{
 		y := mkTask("y", 0, exec.TaskDep{Head: p0, Partition: 0})
 		return &graph{"forkphase", []*exec.Task{p0, p1, x, y}, []*exec.Task{x, y}}
 	}},
+	{"reshuffle", 5, func() *graph {
+		// a phase whose members have DIFFERENT one-to-one dependencies (the re-shuffle
+		// tasks the compiler inserts over a reused result, a Materialize boundary):
+		// s0 reads r0, s1 reads r1, the consumer reads the whole phase {s0,s1}.
+		r0 := mkTask("r", 0)
+		r1 := mkTask("r", 1)
+		s0 := mkTask("s", 0, dep(r0))
+		s1 := mkTask("s", 1, dep(r1))
+		s0.Group = []*exec.Task{s0, s1}
+		s1.Group = s0.Group
+		c := mkTask("c", 0, exec.TaskDep{Head: s0, Partition: 0})
+		return &graph{"reshuffle", []*exec.Task{r0, r1, s0, s1, c}, []*exec.Task{c}}
+	}},
 }
 
 func specByName(n string) graphSpec {
@@ -682,6 +695,12 @@ func buildPlans(thorough bool) []planSpec {
 		add(g, fresh, "loss1", evalsSplit, true, b-1)
 		add(g, fresh, "err", evalsSplit, false, 1)
 	}
+	// a phase with per-member dependencies in different states (reused result, one shard lost)
+	for _, init := range []string{"IIIII", "OLIII", "LOIII", "OOIII", "LLIII", "OLOLI", "OLLOI", "OOOOI", "OOLLI"} {
+		add("reshuffle", init, "loss1", 1, true, b-1)
+	}
+	add("reshuffle", "OLIII", "err", 1, true, b-1)
+	add("reshuffle", "IIIII", "chaos1", 1, true, b-1)
 	add("single", "I", "loss4", 1, true, b)
 	add("single", "I", "loss4", 2, true, b)
 	add("chain2", "II", "loss4", 2, true, b-1)
@@ -736,7 +755,7 @@ func main() {
 		plans = append(plans, mc.Plan{Scenario: name, Delay: p.delay, Bound: p.bound, Budget: budget})
 	}
 	sum := mc.RunPlans(r, scenarios, plans)
-	cov := sum.Coverage("layer S: real exec.Eval (instrumented) under the vsched scheduler with a harness Executor; per plan all schedules with <= bound deviations (delay bounding) or preemptions from the default scheduler, modulo happens-before equivalence, times all environment choices (task outcome OK/LOST/ERR, which completed task is lost later); graphs single/chain2/chain3/diamond/tworoots/shuffle-phase, every assignment of initial states INIT/OK/LOST/ERR, one and two concurrent evaluations. layer H: explicit-state search of the evaluator's scheduling core")
+	cov := sum.Coverage("layer S: real exec.Eval (instrumented) under the vsched scheduler with a harness Executor; per plan all schedules with <= bound deviations (delay bounding) or preemptions from the default scheduler, modulo happens-before equivalence, times all environment choices (task outcome OK/LOST/ERR, which completed task is lost later); graphs single/chain2/chain3/diamond/tworoots/shuffle-phase (+ forkphase and reshuffle = a phase whose members have different one-to-one dependencies, selected initial states), every assignment of initial states INIT/OK/LOST/ERR, one and two concurrent evaluations. layer H: explicit-state search of the evaluator's scheduling core")
 	// keep the plan table compact: aggregate per (graph, env, discipline)
 	cov["plans"] = compactPlans(sum)
 	cov["states"] = cov["states"].(int) + hres.states
